@@ -483,14 +483,23 @@ type Auto struct {
 	notify    chan struct{}
 	NoAck     bool
 	out       chan mqttp.IFace
+	gone      chan struct{} // closed when the reader has seen the end of the connection: the sender goroutine ends too
 }
 
 func (c *Client) Auto(noAck bool) *Auto {
-	a := &Auto{Client: c, notify: make(chan struct{}, 1), NoAck: noAck, out: make(chan mqttp.IFace, 1<<16)}
-	go a.loop()
+	a := &Auto{Client: c, notify: make(chan struct{}, 1), NoAck: noAck, out: make(chan mqttp.IFace, 1<<12), gone: make(chan struct{})}
 	go func() {
-		for p := range a.out {
-			if a.Send(p) != nil {
+		a.loop()
+		close(a.gone)
+	}()
+	go func() {
+		for {
+			select {
+			case p := <-a.out:
+				if a.Send(p) != nil {
+					return
+				}
+			case <-a.gone:
 				return
 			}
 		}
